@@ -523,7 +523,12 @@ async fn scripted(a: &ShardArgs, idx: u64) {
         let func = rq[1];
         hist.push(format!("t={t} -> {}", hexs(&rq)));
         sim.advance(rtt).await;
-        let head = |iin1: u8, iin2: u8| ra::B::response(ra::FIR | ra::FIN | seq, false, iin1, iin2);
+        // (a reply may ask to be confirmed: that changes nothing about what it says)
+        let con = if r.chance(1, 3) { ra::CON } else { 0 };
+        if con != 0 {
+            out::count("B_replies_asking_for_confirmation", 1);
+        }
+        let head = |iin1: u8, iin2: u8| ra::B::response(ra::FIR | ra::FIN | con | seq, false, iin1, iin2);
         let reply: Vec<u8> = match func {
             ra::F_DELAY_MEASURE => match attack {
                 0 => {
